@@ -1022,12 +1022,12 @@ func (w *e2eWorld) evaluate(res verifhook.Result) {
 func init() {
 	register(&World{
 		Name: "e2e", Level: "exploration",
-		Rule: "each evaluation draws a replayer (Finite capacity 64 or Valid with a huge TTL; manual or automatic IDs), one or two clients with their session topics, 1-3 publishers with up to 12 messages (unique tag as first data line; adversarial further data, types, IDs, comments, retry), a client back-off, 0-4 cuts (abrupt at any byte offset of what was flushed, incl. before the headers and inside an event, with io.ErrUnexpectedEOF or an opaque error; or a server-side cancel that ends the handler after the stream started) and the schedule. " +
+		Rule: "each evaluation draws a replayer (Finite with capacity 64 or, in a third of its runs, 4-8 so that it wraps; Valid with a huge TTL or, in a third of its runs, a TTL of one hour with simulated time passing between publishes so that events expire, are collected and the buffer shrinks and grows; manual or automatic IDs), one or two clients with their session topics, 1-3 publishers with up to 12 (18) messages (unique tag as first data line; adversarial further data, types, IDs, comments, retry), a client back-off (built-in retries, reconnection times up to 30 min, or the application calling Connect again itself), 0-4 cuts (abrupt at any byte offset of what was flushed, incl. before the headers and inside an event, surfacing as io.ErrUnexpectedEOF, an opaque error, a net/http-style timeout or a sentinel-matching error, with the server's failing writes accepting a part; or a server-side cancel that ends the handler after the stream started), possibly one more cut after the last publish, and the schedule. Whether the resume point of a reconnection is still held is decided inside the replayer wrapper when Joe asks for the replay; if not, that client is outside the property. " +
 			"After every callback the received sequence must be the published sequence from the first received event on; once faults stop and all publishes returned the client must catch up before the system goes idle. Non-trivial: at least one event received; distinct = distinct (scenario, scheduling hash).",
 		Real: []string{"sse.Server.ServeHTTP, Upgrade, Session (Send/Flush)", "sse.Joe + FiniteReplayer/ValidReplayer (instrumented copy)", "sse.Message encoding", "sse.Client/Connection/Connect, back-off on the fake clock", "event parser and interpreter", "net/http.Client"},
 		Stub: []string{"simnet: RoundTripper + ResponseWriter/FlushError + Body with net/http's contract (headers at first flush or handler return, buffered writes, EOF at handler return, cut => read error on the client and failing writes + context cancellation on the server, Body.Close cancels the server request)", "scheduler: synctest bubble + generated yield points"},
 		Assumptions: []string{
-			"the replayer is large enough to hold everything published while the client is away (as the property requires)",
+			"the replayer is large enough to hold everything published while the client is away (as the property requires): a client whose resume point had expired or been evicted when it reconnected is excluded",
 			"IDs are unique, non-empty, header-safe and NUL-free; session topics are the same on every reconnect",
 			"a client that never got a first event, or whose session ended with an empty 200 (rejected by the default validator), is outside the property",
 			"HTTP/2, proxies and transparent retries of net/http are not modelled",
